@@ -6,6 +6,7 @@ import (
 
 	"github.com/fxamacker/cbor"
 	gbig "github.com/privacybydesign/gabi/big"
+	"github.com/privacybydesign/gabi/gabikeys"
 	"github.com/privacybydesign/gabi/revocation"
 )
 
@@ -391,6 +392,62 @@ func suiteC10(s *Suite, rng *Rng, tier string) {
 					}
 				}
 			}
+		}
+	}
+	// ---- histories of verification calls on one signed-accumulator object (the cache it keeps) ----
+	{
+		other := makeKey(128, 1, 2, rng, true) // another issuer key (other ECDSA key)
+		wrongCounter := *kp.Pk
+		wrongCounter.Counter = kp.Pk.Counter + 1
+		sameCounterOtherKey := *other.Pk
+		sameCounterOtherKey.Counter = kp.Pk.Counter
+		pks := []*gabikeys.PublicKey{kp.Pk, &wrongCounter, &sameCounterOtherKey}
+		nh := 60
+		if tier == "thorough" {
+			nh = 600
+		}
+		for it := 0; it < nh; it++ {
+			src := h.window(last, last).SignedAccumulator
+			sa := &revocation.SignedAccumulator{Data: append([]byte{}, src.Data...), PKCounter: src.PKCounter}
+			kind := "authentic"
+			switch it % 4 {
+			case 1:
+				sa.Data[len(sa.Data)/2] ^= 2
+				kind = "payload-bit-flipped"
+			case 2:
+				sa.PKCounter++
+				kind = "counter+1"
+			case 3:
+				o, err := h.accs[last].Sign(other.Sk)
+				if err != nil {
+					panic(err)
+				}
+				sa.Data, sa.PKCounter = append([]byte{}, o.Data...), kp.Pk.Counter
+				kind = "signed-by-other-key"
+			}
+			calls, outs := L{}, L{}
+			for c := 0; c < 1+rng.Intn(5); c++ {
+				k := rng.Intn(3)
+				if c > 0 && rng.Bool() {
+					k = 0
+				}
+				pk := pks[k]
+				// the signature oracle for this key, on a copy whose counter check is made to pass
+				probe := &revocation.SignedAccumulator{Data: sa.Data, PKCounter: pk.Counter}
+				var ov V
+				if acc, err := probe.UnmarshalVerify(pk); err == nil {
+					ov = dumpAcc(acc)
+				}
+				calls = append(calls, L{pk.Counter, ov})
+				acc, err := sa.UnmarshalVerify(pk)
+				if err == nil {
+					outs = append(outs, okV(dumpAcc(acc)))
+				} else {
+					outs = append(outs, errV())
+				}
+			}
+			s.Add(1006, "unmarshalverify-history:"+kind, it < 8, L{sa.PKCounter, calls}, outs)
+			s.Nontrivial[S(L{kind, calls})] = true
 		}
 	}
 	s.Notes["rule"] = fmt.Sprintf("update messages of length 0..%d over a history of %d revocations (128-bit group): every field of every event altered (value, index, parent hash "+
